@@ -47,13 +47,15 @@ func c11Schema(items []c11Item, v c11Variant) *graphql.Schema {
 	case c11Plain:
 		opts = append(opts,
 			schemabuilder.FilterField("name", func(i c11Item) string { return i.Name }),
+			schemabuilder.FilterField("code", func(i c11Item) string { return c11Code(i) }),
 			schemabuilder.SortField("rank", func(i c11Item) int64 { return i.Rank }),
 			schemabuilder.SortField("name", func(i c11Item) string { return i.Name }))
 	case c11Expensive:
 		opts = append(opts,
-			schemabuilder.FilterField("name", func(ctx context.Context, i c11Item) string { return i.Name }),
-			schemabuilder.SortField("rank", func(ctx context.Context, i c11Item) int64 { return i.Rank }),
-			schemabuilder.SortField("name", func(ctx context.Context, i c11Item) string { return i.Name }))
+			schemabuilder.FilterField("name", func(ctx context.Context, i c11Item) string { return i.Name }, schemabuilder.Expensive),
+			schemabuilder.FilterField("code", func(ctx context.Context, i c11Item) string { return c11Code(i) }, schemabuilder.Expensive),
+			schemabuilder.SortField("rank", func(ctx context.Context, i c11Item) int64 { return i.Rank }, schemabuilder.Expensive),
+			schemabuilder.SortField("name", func(ctx context.Context, i c11Item) string { return i.Name }, schemabuilder.Expensive))
 	case c11Batch:
 		opts = append(opts,
 			schemabuilder.BatchFilterField("name", func(ctx context.Context, in map[batch.Index]c11Item) (map[batch.Index]string, error) {
@@ -169,10 +171,22 @@ func c11Fetch(schema *graphql.Schema, args string) (*c11Page, string, error) {
 }
 
 // the order the property demands: the elements passing the filter, stably sorted
-func c11Oracle(items []c11Item, filter, sortBy, order string) []int64 {
+// a second text-filter field (plain and expensive implementations): no letter of the name filters occurs in it
+func c11Code(i c11Item) string { return fmt.Sprintf("k%d", i.Rank) }
+
+// fields: the filterTextFields the query restricts the text filter to ("" = not given: every registered field);
+// hasCode: the implementation registers the second filter field
+func c11Oracle(items []c11Item, filter, fields string, hasCode bool, sortBy, order string) []int64 {
 	var kept []c11Item
 	for _, it := range items {
-		if filter == "" || strings.Contains(strings.ToLower(it.Name), strings.ToLower(filter)) {
+		match := filter == ""
+		if (fields == "" || fields == "name") && strings.Contains(strings.ToLower(it.Name), strings.ToLower(filter)) {
+			match = true
+		}
+		if hasCode && (fields == "" || fields == "code") && strings.Contains(strings.ToLower(c11Code(it)), strings.ToLower(filter)) {
+			match = true
+		}
+		if match {
 			kept = append(kept, it)
 		}
 	}
@@ -234,15 +248,26 @@ func TestVerifBounded_C11_Walk(t *testing.T) {
 					if sortBy == "" && order == "desc" {
 						continue
 					}
-					for _, filter := range []string{"", "a", "zz"} {
+					hasCode := variant == c11Plain || variant == c11Expensive
+					type c11Filter struct{ text, fields string }
+					filters := []c11Filter{{"", ""}, {"a", ""}, {"zz", ""}}
+					if hasCode {
+						// the text filter restricted to some of the registered fields
+						filters = append(filters, c11Filter{"k", ""}, c11Filter{"k", "name"}, c11Filter{"a", "code"}, c11Filter{"a", "name"}, c11Filter{"1", "code"})
+					}
+					for _, f := range filters {
+						filter := f.text
 						distinct++
-						want := c11Oracle(items, filter, sortBy, order)
+						want := c11Oracle(items, filter, f.fields, hasCode, sortBy, order)
 						common := ""
 						if sortBy != "" {
 							common += fmt.Sprintf(`, sortBy: "%s", sortOrder: %s`, sortBy, order)
 						}
 						if filter != "" {
 							common += fmt.Sprintf(`, filterText: "%s"`, filter)
+							if f.fields != "" {
+								common += fmt.Sprintf(`, filterTextFields: ["%s"]`, f.fields)
+							}
 						}
 						// windows between two cursors: after = cursor of element i (or none), before = cursor of element j (or none)
 						if all, _, err := c11Fetch(schema, `first: 100`+common); err == nil && len(all.Items.Edges) == len(want) && len(want) > 0 && len(want) <= 5 {
